@@ -11,6 +11,10 @@ Model: `Exec.exec` / `Exec.run` (`Exec::exec`, `exec_many`, `Scanner::exec`), `S
 All theorems quantify over every image (`Pe.View`: both formats, file and mapped, any section table
 unless `SecWF` is asked for), every atom list (not only parser output), every range and save array.
 The only size assumption is the global model bound "buffers are below 4 GiB".
+
+Continued in `Thm/C10Pos.lean`: the ghost position `Res.pos` is the observable capture `save[0]`, a scan
+writes only below `save_len`, parsed patterns satisfy the pattern half of `Hyp`, a `Hyp` witness on a file
+view with two sections and the witness that `SecWF` cannot be dropped.
 -/
 namespace Pelite.Scan
 open Pelite.Pattern Pelite.Exec
@@ -148,7 +152,7 @@ theorem C10_matches_code_range (v : Pe.View) :
 /-! ## (e) completeness — mapped views, and file views with sections sorted by VirtualAddress
 
 The pattern must not read the save array (`noRead`: no `Check`, no `Pir` — atoms the parser never
-emits): `next` executes the pattern on whatever the previous attempts left in the caller's save
+emits, `Thm/C11Frame.lean:C11_parse_atoms_scannable`): `next` executes the pattern on whatever the previous attempts left in the caller's save
 array, so for such atoms "executing the pattern at `c` succeeds" is not a property of `c` alone. -/
 
 /-- For patterns that do not read the save array the outcome of an execution is a function of the
@@ -363,7 +367,9 @@ theorem C10_strategy1_reports_past_range_end :
     (scanAll (next v pat) 9 (matchesInit 0 5) #[]).bind (fun a => .ok (a.hits.map (·.1), a.exhausted)) = .ok ([1, 4], true) := by
   decide +kernel
 
-/-! ## the hypotheses are satisfiable on non-trivial instances -/
+/-! ## the hypotheses are satisfiable on non-trivial instances
+
+(for a FILE view with two sections, where `SecWF` is not vacuous, see `Thm/C10Pos.lean`) -/
 
 example : SecWF [⟨0, 0, 0x30, 0x1000, 0x40, 0x200, 0⟩, ⟨0, 0, 0x95, 0x2000, 0x80, 0x240, 0⟩, ⟨0, 0, 0x10, 0x2100, 0x10, 0x2c0, 0⟩] := by
   decide
